@@ -15,18 +15,19 @@ AMP = "protocols/amp.py"
 Q = "twisted.protocols.amp"
 TECHNIQUE = "take-then-fire, who-may-write and guard dominance on BoxDispatcher CFGs"
 EXPLANATION = (
-    "Decides on the CFGs of BoxDispatcher: (a) _answerReceived/_errorReceived detach the pending Deferred from "
-    "_outstandingRequests (pop or read+del, keyed by box[ANSWER] / box[ERROR]) before the single callback/errback and "
-    "fire it on every normal path; ampBoxReceived routes ANSWER/ERROR/COMMAND boxes to the handler that reads the same key; "
-    "(b) failAllOutgoing records _failAllReason and resets _outstandingRequests before the first errback call-out, "
-    "iterates a snapshot taken before the reset and errbacks every entry with the reason; (c) _sendBoxCommand returns "
-    "fail(_failAllReason)/None before touching the box once the connection is lost, registers a Deferred only when an "
-    "answer is required, under the fresh tag it put into box[ASK], and returns that Deferred; tags come from a counter only "
-    "_nextTag increments; (d) BinaryBoxProtocol.connectionLost / AMP.connectionLost / stopReceivingBoxes reach "
-    "failAllOutgoing on every path; (e) formatAnswer/formatError copy box[ASK] into ANSWER/ERROR, undeclared errors are "
-    "sent as UNKNOWN_ERROR_CODE and received as UnknownRemoteError, declared ones through Command.allErrors; only the "
-    "listed functions mutate the three state attributes.  Not decided: schedules and interleavings, the synchronous "
-    "loop-back case where an answer arrives before the Deferred is registered, responders that never answer."
+    'On the CFGs of BoxDispatcher: _answerReceived/_errorReceived detach the pending Deferred from '
+    '_outstandingRequests (pop or read+del, keyed by box[ANSWER] / box[ERROR]) before their single callback/errback '
+    'and fire it on every normal path, and ampBoxReceived routes ANSWER/ERROR/COMMAND boxes to the handler that reads '
+    'the same key. failAllOutgoing records _failAllReason and resets _outstandingRequests before the first errback '
+    'call-out, iterates a snapshot taken before the reset and errbacks every entry with the reason; '
+    'BinaryBoxProtocol.connectionLost, AMP.connectionLost and stopReceivingBoxes reach it on every path. '
+    '_sendBoxCommand returns fail(_failAllReason)/None before touching the box once the connection is lost, registers '
+    'a fresh Deferred only when an answer is required, under the tag it put into box[ASK] (from a counter only '
+    '_nextTag increments), sends on every live path and returns the registered Deferred. formatAnswer/formatError '
+    'copy box[ASK] into ANSWER/ERROR, undeclared errors travel as UNKNOWN_ERROR_CODE and surface as '
+    'UnknownRemoteError, declared ones go through Command.allErrors; only the listed functions mutate '
+    '_outstandingRequests, _failAllReason and _counter. Not decided: schedules and interleavings, the synchronous '
+    'loop-back case where an answer arrives before the Deferred is registered, responders that never answer.'
 )
 ASSUMPTIONS = [
     "Deferred.callback/errback deliver exactly one result (property C03)",
@@ -331,8 +332,10 @@ def check_who_may_write(ctx, mod):
 
 def check_drain(ctx):
     for qual, pred, what in (
-        ("BinaryBoxProtocol.connectionLost", lambda x: isinstance(x, ast.Call) and call_name(x) == "self.boxReceiver.stopReceivingBoxes" and len(x.args) == 1, "self.boxReceiver.stopReceivingBoxes(reason)"),
-        ("AMP.connectionLost", lambda x: isinstance(x, ast.Call) and call_name(x) == "BinaryBoxProtocol.connectionLost" and len(x.args) == 2 and src(x.args[0]) == "self", "BinaryBoxProtocol.connectionLost(self, reason)"),
+        ("BinaryBoxProtocol.connectionLost", lambda x: isinstance(x, ast.Call) and call_attr(x) == "stopReceivingBoxes" and len(x.args) == 1, "self.boxReceiver.stopReceivingBoxes(reason)"),
+        ("AMP.connectionLost", lambda x: isinstance(x, ast.Call) and call_attr(x) == "connectionLost" and (
+            (call_name(x) == "BinaryBoxProtocol.connectionLost" and len(x.args) == 2 and src(x.args[0]) == "self") or
+            (isinstance(x.func.value, ast.Call) and call_name(x.func.value) == "super" and len(x.args) == 1)), "BinaryBoxProtocol.connectionLost(self, reason)"),
         ("BoxDispatcher.stopReceivingBoxes", lambda x: isinstance(x, ast.Call) and call_name(x) == "self.failAllOutgoing" and len(x.args) == 1, "self.failAllOutgoing(reason)"),
     ):
         f = ctx.func(AMP, qual)
